@@ -723,6 +723,9 @@ def check(run):
     r11_eos(run, F)
     r11b_one_take_past_end(run, F)
     r12_protocol(run, F)
+    # "every input containing an invalid lexeme is rejected": the digit classifiers decide which bytes a literal swallows
+    from props import c14
+    c14.r7_digit_tables(run, F)
     if run.tier == "thorough":
         r3_witness(run, F)
 
